@@ -62,6 +62,7 @@ structure ClassInfo where
   copyVia : CopyKind := .args
   sealed : Bool := false              -- creating a subclass raises (`__init_subclass__` / metaclass)
   frozen : Bool := false              -- `__setattr__` raises
+  boolRaises : Bool := false          -- `__bool__` raises (`traceback.format_exc()` in `_finalize` evaluates `bool(e)`)
 
 def ClassInfo.mro (c : ClassInfo) : List String := c.name :: c.bases
 
@@ -168,7 +169,7 @@ def wrapClass (c : ClassInfo) : Option ClassInfo :=
   else                                   -- bases = (exc_type, GlomError): exc_type's constructor comes first
     (wrapMro c.mro).map fun m =>
       { name := wrapName c, bases := m, ctor := c.ctor, falsy := c.falsy, copyVia := c.copyVia,
-        sealed := c.sealed, frozen := c.frozen }
+        sealed := c.sealed, frozen := c.frozen, boolRaises := c.boolRaises }
 
 def builtinCls (name : String) (bases : List String) : ClassInfo :=
   { name := name, bases := bases, ctor := some }
@@ -186,9 +187,15 @@ def ctorFailure : ExcObj :=
 def typeFailure : ExcObj :=
   { id := 4, cls := builtinCls "TypeError" ["Exception", "BaseException", "object"], args := [.str "type()"] }
 
-/-- the exception a refused attribute assignment raises (modelled as AttributeError) -/
-def attrFailure : ExcObj :=
-  { id := 5, cls := builtinCls "AttributeError" ["Exception", "BaseException", "object"], args := [.str "setattr"] }
+/-- the exception a refused attribute assignment raises (AttributeError), inside the handler of `e` -/
+def attrFailure (e : ExcObj) : ExcObj :=
+  { id := 5, cls := builtinCls "AttributeError" ["Exception", "BaseException", "object"], args := [.str "setattr"],
+    context := some e.id }
+
+/-- the exception a raising `__bool__` raises (RuntimeError), inside the handler of `e` -/
+def boolFailure (e : ExcObj) : ExcObj :=
+  { id := 6, cls := builtinCls "RuntimeError" ["Exception", "BaseException", "object"], args := [.str "bool"],
+    context := some e.id }
 
 /-- result of building a new exception object inside glom()'s handler -/
 inductive Built where
@@ -204,7 +211,7 @@ def wrap (F : Facts) (e : ExcObj) : Built :=
     | some a =>
       if F.wrapArgsCheck && a != e.args then .ok e            -- re-creation changed the args
       else if wc.frozen then                                   -- `wrapper.__wrapped = exc` raises, inside the try
-        (if F.wrapFallback then .ok e else .raised attrFailure)
+        (if F.wrapFallback then .ok e else .raised (attrFailure e))
       else .ok { id := e.id + 1, cls := wc, args := a, init := e.args, wrapped := some e.id }
     | none => if F.wrapFallback then .ok e else .raised ctorFailure   -- maybe exception can't be re-created
 
@@ -278,9 +285,9 @@ def glomErrBranch (F : Facts) (e : ExcObj) : Built :=
   match copyBranch F e with
   | .ok err =>                                                 -- err._set_wrapped(e)
     if isInst err "GlomError" then
-      if err.cls.frozen then (if F.attrGuarded then .ok e else .raised attrFailure)
+      if err.cls.frozen then (if F.attrGuarded then .ok e else .raised (attrFailure e))
       else .ok { err with wrapped := some e.id }
-    else .raised attrFailure                                   -- the copy has no `_set_wrapped`
+    else .raised (attrFailure e)                               -- the copy has no `_set_wrapped`
   | r => r
 
 /-- `if isinstance(err, GlomError): err._finalize(…)  else: raise`, then `if err is not None: raise err` -/
@@ -289,7 +296,9 @@ def finish (F : Facts) (e : ExcObj) (b : Built) : Res :=
   | .raised x => .exc x
   | .ok err =>
     if isInst err "GlomError" then                             -- err._finalize(...): sets attributes
-      if err.cls.frozen then (if F.attrGuarded then .exc e else .exc attrFailure)
+      if err.cls.frozen then (if F.attrGuarded then .exc e else .exc (attrFailure e))
+      else if e.cls.boolRaises then                            --   … and formats the traceback of `e`: `bool(e)`
+        (if F.attrGuarded then .exc e else .exc (boolFailure e))
       else if F.errTestTruthy && err.cls.falsy then .exc unboundLocal   -- `if err:` is False, `return ret`
       else .exc err                                            -- raise err
     else .exc e                                                -- wrapping failed: raise
